@@ -28,6 +28,8 @@ type Rec struct {
 	StopAtYield int
 	// StopAtEffect raises Stopped from inside platform effect number k (1-based); 0 = never.
 	StopAtEffect int
+	NoYielder    bool
+	EventMarks   []int // len(Events) just before each delivered event
 	// YieldBudget raises Stopped once that many yields happened (a legitimate external stop).
 	YieldBudget     int
 	BudgetHit       bool
@@ -70,6 +72,9 @@ func (r *Rec) Read() string {
 func (r *Rec) Cls()                  { r.add("cls") }
 func (r *Rec) Sleep(d time.Duration) { r.add("sleep " + strconv.FormatInt(int64(d), 10)) }
 func (r *Rec) Yielder() evaluator.Yielder {
+	if r.NoYielder {
+		return nil // a platform without yielder (the CLI): stops can only be raised from inside its calls
+	}
 	return r
 }
 
@@ -164,17 +169,21 @@ type Outcome struct {
 
 // Opts for Run.
 type Opts struct {
-	Inputs        []string
-	RandSeed      int64
-	YieldBudget   int
-	StopAtYield   int
-	StopAtEffect  int
-	MarkYields    bool
-	MaxEvents     int
-	Events        []evaluator.Event // delivered after Eval (only to existing handlers)
-	FailFast      bool
-	NoTestSummary bool
-	OnYield       func(n int)
+	Inputs       []string
+	RandSeed     int64
+	YieldBudget  int
+	StopAtYield  int
+	StopAtEffect int
+	// NoYielder: the platform's Yielder() is nil, like the CLI platform's.
+	NoYielder bool
+	// StopBeforeEvent raises Stopped just before the k-th delivered event (1-based); 0 = never.
+	StopBeforeEvent int
+	MarkYields      bool
+	MaxEvents       int
+	Events          []evaluator.Event // delivered after Eval (only to existing handlers)
+	FailFast        bool
+	NoTestSummary   bool
+	OnYield         func(n int)
 	// Attach is called with the evaluator before evaluation (to register hook observers).
 	Attach func(ev *evaluator.Evaluator)
 }
@@ -184,7 +193,7 @@ func Builtins() parser.Builtins { return evaluator.BuiltinDecls() }
 
 // Run parses and evaluates src under a recording platform.
 func Run(src string, o Opts) (out *Outcome) {
-	rec := &Rec{Inputs: o.Inputs, YieldBudget: o.YieldBudget, StopAtYield: o.StopAtYield, StopAtEffect: o.StopAtEffect, MarkYields: o.MarkYields, MaxEvents: o.MaxEvents, OnYield: o.OnYield}
+	rec := &Rec{Inputs: o.Inputs, YieldBudget: o.YieldBudget, StopAtYield: o.StopAtYield, StopAtEffect: o.StopAtEffect, MarkYields: o.MarkYields, MaxEvents: o.MaxEvents, OnYield: o.OnYield, NoYielder: o.NoYielder}
 	if rec.YieldBudget == 0 {
 		rec.YieldBudget = 200000
 	}
@@ -221,9 +230,15 @@ func Run(src string, o Opts) (out *Outcome) {
 	}
 	err = ev.Eval(prog)
 	if err == nil {
+		delivered := 0
 		for _, e := range o.Events {
 			if !hasHandler(ev, e.Name) {
 				continue
+			}
+			delivered++
+			rec.EventMarks = append(rec.EventMarks, len(rec.Events))
+			if o.StopBeforeEvent == delivered {
+				ev.Stopped = true
 			}
 			if err = ev.HandleEvent(e); err != nil {
 				break
